@@ -381,3 +381,86 @@ pub fn recvstream_received_reset_native(mode: u8) -> u32 {
         }
     }
 }
+
+/// Native replay body for the E2 query `e2_streams_retransmit` (C01), on a real `StreamsState`: 3000 bytes are
+/// written to a stream.  mode 0: the first packet's worth is sent, the application calls `finish()` (the FIN is
+/// now owed but not yet sent), and then that first frame - which carried no FIN - is declared lost.  mode 1:
+/// everything including the FIN is sent and the FIN-carrying frame is lost.  In both cases what is sent
+/// afterwards must cover the lost range and end with the FIN: the receiver must learn the end of the stream.
+pub fn retransmit_fin_native(mode: u8) -> u32 {
+    use super::state::verif::{mk_streams, Scalars};
+    let mut st = mk_streams(&Scalars { max: [10, 10], max_data: 1 << 20, send_window: 1 << 20, ..Default::default() });
+    let mut pending = Retransmits::default();
+    let conn_state = crate::connection::State::Established;
+    let id = {
+        let mut s = Streams { state: &mut st, conn_state: &conn_state };
+        s.open(Dir::Uni).expect("stream credit available")
+    };
+    st.send.get_mut(&id).map(get_or_insert_send(VarInt::from_u32(1 << 16)));
+    let data = vec![7u8; 3000];
+    {
+        let mut ss = SendStream { id, state: &mut st, pending: &mut pending, conn_state: &conn_state };
+        assert!(ss.write(&data).unwrap_or(0) == 3000);
+    }
+    let mut sent: Vec<frame::StreamMeta> = Vec::new();
+    let mut send_some = |st: &mut StreamsState, sent: &mut Vec<frame::StreamMeta>, rounds: usize| {
+        for _ in 0..rounds {
+            let mut buf = Vec::new();
+            for m in st.write_stream_frames(&mut buf, 1200, false) {
+                if m.id == id {
+                    sent.push(m);
+                }
+            }
+        }
+    };
+    let lost;
+    if mode == 0 {
+        send_some(&mut st, &mut sent, 1);
+        assert!(sent.len() == 1 && !sent[0].fin && sent[0].offsets.end < 3000);
+        let mut ss = SendStream { id, state: &mut st, pending: &mut pending, conn_state: &conn_state };
+        ss.finish().expect("finish succeeds");
+        lost = sent[0].clone();
+    } else {
+        {
+            let mut ss = SendStream { id, state: &mut st, pending: &mut pending, conn_state: &conn_state };
+            ss.finish().expect("finish succeeds");
+        }
+        send_some(&mut st, &mut sent, 6);
+        assert!(sent.last().map(|m| m.fin && m.offsets.end == 3000) == Some(true), "everything including the FIN was sent");
+        lost = sent.last().unwrap().clone();
+    }
+    let already = sent.len();
+    st.retransmit(lost.clone());
+    send_some(&mut st, &mut sent, 8);
+    let after = &sent[already..];
+    assert!(after.iter().any(|m| m.offsets.start <= lost.offsets.start && (m.offsets.end >= lost.offsets.end || after.iter().any(|n| n.offsets.end >= lost.offsets.end))), "the lost range was not sent again");
+    assert!(sent.iter().skip(if mode == 0 { 1 } else { already }).any(|m| m.fin && m.offsets.end == 3000), "the end of the stream is never (re)announced: the receiver waits forever");
+    1 + mode as u32
+}
+
+/// Native replay body for the E2 slice query `e2_send_write_loop_iteration` (C05), through the public
+/// `SendStream::write_chunks` on a real `StreamsState`: the peer granted `credit` bytes on the stream; the
+/// application offers `n` chunks of `chunk` bytes in one vectored write.  No more than `credit` bytes may be
+/// accepted, also when the credit runs out in the middle of a chunk.
+pub fn send_write_chunks_native(credit: u8, chunk: u8, n: u8) -> u32 {
+    use super::state::verif::{mk_streams, Scalars};
+    let mut st = mk_streams(&Scalars { max: [10, 10], max_data: 1 << 20, send_window: 1 << 20, ..Default::default() });
+    let mut pending = Retransmits::default();
+    let conn_state = crate::connection::State::Established;
+    let id = {
+        let mut s = Streams { state: &mut st, conn_state: &conn_state };
+        s.open(Dir::Uni).expect("stream credit available")
+    };
+    st.send.get_mut(&id).map(get_or_insert_send(VarInt::from_u32(credit as u32)));
+    let mut chunks: Vec<Bytes> = (0..n.min(8)).map(|i| Bytes::from(vec![i; chunk as usize])).collect();
+    let offered = chunks.iter().map(|c| c.len()).sum::<usize>();
+    let mut ss = SendStream { id, state: &mut st, pending: &mut pending, conn_state: &conn_state };
+    let r = ss.write_chunks(&mut chunks);
+    let accepted = match r {
+        Ok(w) => w.bytes,
+        Err(_) => 0,
+    };
+    assert!(accepted <= credit as usize, "{} bytes accepted on a stream with {} bytes of credit", accepted, credit);
+    assert!(accepted == offered.min(credit as usize), "write must accept exactly the available credit: {} of {} offered, credit {}", accepted, offered, credit);
+    1
+}
